@@ -31,6 +31,9 @@ type Plan struct {
 	CorpusModes  []string
 	// CorpusDirs limits the corpus directories (quick tier); empty = all.
 	CorpusDirs []string
+	// CorpusDirsPerRun is the number of directories given to one `ego test`
+	// command line (default 4).
+	CorpusDirsPerRun int
 	// CorpusTraceDirs limits the directories run under --trace (tracing is
 	// about 20 times slower); empty = all.
 	CorpusTraceDirs []string
